@@ -6,6 +6,7 @@ from props.shared import ao, atomic, A, AO, slot_waiter, slot_waker
 EXPLANATION = ("R-SLOT (register-then-recheck / publish-then-take) on Park.wait_co and CancelImpl.co; R-ORDER inside "
                "park_timeout (token consumed first, kernel spin before arming, result consumed after); R-MO on Park.state / "
                "wait_kernel; condition-variable discipline of ThreadPark; R-WHO provenance of the Timeout/Canceled results")
+EXPLANATION_2 = ('Park token: check_park answers !state.swap(false) (fast path `false` only behind the token), flag encodings of Park/SyncBlocker, ignore_cancel stores !b and yield_back checks exactly when enabled, the armed timer handle is kept and a linked handle goes to the timer thread, Drop for Park waits for wait_kernel, nothing runs after the nested self-wake; ThreadPark waits only without token and leaves only with token or timeout; Blocker/SyncBlocker/FastBlocker forwarding and cancellation-point wiring; AtomicOption::store stores Some(arg)')
 NOT_DECIDED = "absence of lost wake-ups over all interleavings (the Dekker shape is necessary, not sufficient); spurious wake-ups; fairness; elapsed time"
 CONFIGS_QUICK = ["default"]
 CONFIGS_THOROUGH = ["default", "nosteal", "bare"]
